@@ -88,7 +88,7 @@ def gen_case(rng, directed=None):
     step = rng.choice([0.005, 0.01, 0.02, 0.025, 0.05, 0.1, 0.2, 0.5, nice(rng, 0.005, 0.5, 2)])
     dmin = nice(rng, 0.05, 20., 3)
     if rkind in KNOT:
-        dmin = rng.choice([0.01, 0.02, 0.05, 0.1, 0.25, 0.5, 1., 2., 4., 5., 10.])
+        dmin = rng.choice([0.03125, 0.0625, 0.125, 0.25, 0.5, 0.75, 1., 1.5, 2., 4., 5., 8., 10.])   # exact in binary
     if rkind in SINGLE:
         dmax = dmin
     else:
@@ -123,9 +123,9 @@ def gen_case(rng, directed=None):
         # few-digit numbers, so that theta * (d * 1000) is exact in floats as well: the radius IS the knot
         thetas = []
         while len(thetas) < nb:
-            t = rng.choice([0.5, 1., 2., 2.5, 4., 5., 8., 10., 20.])
-            if exact_product(t, dmin):
-                thetas.append(t)
+            t = rng.choice([0.5, 1., 1.5, 2., 2.5, 3., 4., 5., 8., 10., 20.])
+            assert exact_product(t, dmin)
+            thetas.append(t)
     if opts.get('same_theta') or (not directed and rng.random() < 0.15):
         thetas = [thetas[0]] * nb        # one angular aperture for all bands (tables may still differ)
     # the aperture radii may be given in any angle unit; the model works with the arcsec floats the code derives
